@@ -16,7 +16,8 @@ RULE = ('strings: exhaustive token strings over {P,K,B,X,[ ] ( ) { } < > ? - + /
         'mutations), every vocabulary entry without mass and composition for the deferred clause, '
         'random strings up to 40 tokens, single-token mutations (delete/insert/swap/duplicate) of generated valid '
         'strings, 10 positions (incl. the ProForma spellings @N-term / @C-term) x a corpus of unresolvable modification '
-        'values for the deferred clause, and 10 positions x 60 malformed values (unbalanced isotope blocks, empty '
+        'values (incl. the empty value and alternatives none of which resolves; half of the requests preceded by the mass '
+        'or composition of a valid string with bare localisation references) for the deferred clause, and 10 positions x 60 malformed values (unbalanced isotope blocks, empty '
         'values, dangling signs/tags/alternatives) + 31 malformed adduct lists and global rules whose parse, mass and '
         'comp run under the logical step budget (a loop or a foreign exception is the violation; a lenient numeric '
         'reading is not judged). '
@@ -31,7 +32,11 @@ TOKENS = ['P', 'K', 'B', 'X', '[', ']', '(', ')', '{', '}', '<', '>', '?', '-', 
 CLASS = {t: ('R' if t in 'PKBX' else 'N' if t in '12' else 'A' if t == 'Acetyl' else t) for t in TOKENS}
 
 UNRESOLVABLE = ['INVALID', 'U:INVALID', 'UNIMOD:999999', 'M:nope', 'MOD:99999', 'X:nope', 'Obs:abc', 'INFO:only',
-                'Glycan:Foo', 'Formula:Xx2']
+                'Glycan:Foo', 'Formula:Xx2', '', 'NotAMod|', '|INFO:custom', 'NotAMod|INFO:x']
+# valid strings whose localisation / cross-link references weigh nothing by themselves: asked for between the cases of the
+# deferred clause (a reference resolved to 0.0 must not make the library accept an empty or unknown value afterwards)
+TAGGED = ['EM[Oxidation]EVT[#g1(0.01)]S[#g1(0.09)]ES[Phospho#g1(0.90)]PEK', 'PEPT[#g1]IDE[Phospho#g1]',
+          'K[#XL1]PEPK[XLMOD:02001#XL1]', '[#g2]-PEPT[Acetyl#g2]IDE', 'PEPT[+15.995#s1]IDE[#s1]']
 # malformed values: the statement's outcome classes still apply (no hang, no unrelated exception); whether a lenient
 # reading that returns a number is right is NOT judged here (only hang / foreign exception are violations)
 MALFORMED = ['Formula:[13C2', 'Formula:C2]H', 'Formula:[[C]]', 'Formula:C-', 'Formula:[13C2]]', 'Formula:', 'Glycan:',
@@ -281,6 +286,11 @@ def deferred(ctx, pt):
                     continue  # a composition with an unknown symbol is returned as written; mass must reject it
                 s = tmpl.format(v=v)
                 ctx.begin({'clause': 'deferred', 'string': s, 'function': fn_name})
+                if ctx.rng.random() < 0.5:
+                    try:
+                        getattr(pt, ctx.rng.choice(['mass', 'comp']))(ctx.rng.choice(TAGGED))
+                    except Exception:
+                        pass
                 try:
                     pt.parse(s)
                 except BaseException as e:
